@@ -29,4 +29,10 @@ func init() {
 	reg("C06", propMeta{Level: "exploration", QuickRuns: 8000, ThoroughRuns: 400000,
 		Rule: "one run = one store topology (simple/indexed/multi-indexed/multi-indexed-array, concurrent(.), teeing(prefilled base), merged(1-2 disjoint prefilled read stores), temporal adapter with/without instant) x drawn map-order policy x a history of 1-30 (thorough 1-60) operations from {Add, Remove, Contains, GetFacts(pattern), Merge(other store), aborted scan, count} over a universe of 2-4 predicates (p/1 and p/2 share a symbol) and constants of every kind incl. nested structures, filtered to be free of Atom.Hash collisions; the set-of-atoms model is compared after every operation (membership of every universe atom, full scans exactly-once, listing, exact count where documented). Non-trivial: >= 2 state-changing operations. Distinct = distinct trace hashes.",
 		Assumptions: []string{"universe atoms with equal Atom.Hash() are excluded from random histories (known finding, covered by fixed probes)", "read stores of a merged store are disjoint, as its documentation advises"}})
+	reg("C13", propMeta{Level: "exploration", QuickRuns: 8000, ThoroughRuns: 300000,
+		Rule: "one run = a TemporalStore with per-atom interval limit drawn from {1..6, default, unlimited} x map-order policy x insertion mode (random/ascending/descending/zig-zag starts) x a history of 1-40 (thorough 1-80) operations from {Add (point/finite/half-unbounded/eternal/adjacent-by-1ns/invalid), Coalesce, GetFactsAt, GetFactsDuring, ContainsAt, Merge(other store)} on a 0..24 ns timeline over 1-2 predicates with 1-3 atoms each; after every operation the full scan and the pair count are compared with a reference map atom -> interval set; point/range queries pointwise; Coalesce must keep the holds-set at 32 probe instants and leave finite intervals neither overlapping nor adjacent. Non-trivial: >= 3 successful insertions. Distinct = distinct trace hashes.",
+		Assumptions: []string{"after Coalesce the model adopts the store's representation once meaning-preservation and non-adjacency have been checked (the statement fixes meaning, not representation)", "an exact duplicate arriving when its atom is at the limit may be answered by the limit error"}})
+	reg("C18", propMeta{Level: "exploration", QuickRuns: 6000, ThoroughRuns: 250000,
+		Rule: "part A (3/4 of runs): 2-4 simulated client tasks x 2-6 operations each from {Add, Remove, Contains, GetFacts(pattern), Merge(fixed store), EstimateFactCount, ListPredicates} on NewConcurrentFactStore(base) over <= 8 atoms; base is a real store (simple/indexed/multi-indexed/multi-indexed-array, statement-level yields) behind a wrapper that checks the held lock mode and yields at entry and in scan callbacks; the baton scheduler draws every switch at lock/unlock/base/scan points plus 0-3 preemptions at instrumented yields; oracle: porcupine linearizability of the invoke/return history (global event numbers) against a bitmask set model, lock discipline, deadlock, panic. Part B (1/4): 2-4 tasks each parse->analyse->evaluate their own generated program (some with failing parses, pooled lexer/parser objects changing hands, optionally one task calling ast.SetTimezone) under 1-3 (thorough 1-6) function-entry preemptions; oracle: each task's result equals its solo run, lockset on written package-level variables, no deadlock/panic. Non-trivial: >= 1 pair of overlapping operations (A) / >= one switch per task (B). Distinct = distinct interleavings (hash of task,site at every switch point).",
+		Assumptions: []string{"cooperative scheduling cannot exhibit hardware-level data races; the lockset discipline stands in for 'no data races'", "ANTLR runtime and Go runtime are not instrumented: preemption happens only at mangle function entries, store statements and sync points"}})
 }
